@@ -136,6 +136,38 @@ def run(ctx):
                     bid += 1
                     jobs.append((bid, rules, T, streaming, strings[i:i + 1200]))
                     labels[bid] = ('alphabet strings', rules, P.shape_key(T) if T else 'schemaless', streaming, None)
+    # (a') grammar-based inputs aimed at the contents syntaxes (REAL character and binary forms, OID arcs, lengths at the
+    # platform limits, empty explicit wrappers)
+    import sys as _sys
+    def tlv(tag, content):
+        n = len(content)
+        ln = [n] if n < 128 else [0x80 | ((n.bit_length() + 7) // 8)] + list(n.to_bytes((n.bit_length() + 7) // 8, 'big'))
+        return [tag] + ln + list(content)
+    crafted = []
+    for txt in (b'nan', b'inf', b'-inf', b'NaN', b'1e400', b'1E400', b'-1.5E-400', b'', b' 1', b'1 ', b'0x10', b'1_0', b'+', b'.',
+                b'E', b'1E', b'9' * 400, b'1' + b'0' * 310, b'--1', b'1e+', b'\xff'):
+        for nr in (1, 2, 3, 0, 4, 0x3f):
+            crafted.append(tlv(9, bytes([nr]) + txt))
+    for c in ([0x80], [0x80, 1], [0x83, 0, 1], [0x83, 255, 1], [0x83, 1, 1], [0xb0, 1, 1], [0xc0, 1, 1], [0x82, 0x7f, 0xff, 0xff, 1],
+              [0x8f, 1, 1], [0x40], [0x41], [0x42], [0x43], [0x44, 0], [0x40, 0], [0xff] * 5, [0x81, 0x7f] + [0xff] * 300):
+        crafted.append(tlv(9, bytes(c)))
+    for c in ([0x80], [0x80, 1], [0xff] * 30 + [0x7f], [0x2a, 0x80, 0x80, 1], [0x78], [0xff], [0x2a, 0xff]):
+        crafted.append(tlv(6, bytes(c)))
+    for c in ([7], [8], [7, 0], [0], [9, 1], [255]):
+        crafted.append(tlv(3, bytes(c)))
+    for t in (4, 2, 3, 0x0c, 0x30, 0x24, 0xa0, 5, 1, 9, 6):
+        for ln in (_sys.maxsize, _sys.maxsize - 1, _sys.maxsize + 1, 2 ** 63, 2 ** 64 - 1, 2 ** 32, 2 ** 31 - 1):
+            crafted.append([t, 0x88] + list(ln.to_bytes(8, 'big')) + [1, 2, 3])
+    crafted += [[0xa0, 0x80, 0, 0], [0xa0, 0], [0xa0, 0x80, 0xa0, 0x80, 0, 0, 0, 0], [0x30, 0x80, 0xa0, 0x80, 0, 0, 0, 0],
+                [0x24, 0x80, 0, 0], [0x23, 0x80, 0, 0], [0x23, 2, 0xa0, 0], [0x24, 2, 0xa0, 0], [0x2c, 0x80, 0, 0],
+                [0x31, 0x80, 0xa1, 0x80, 0, 0, 0, 0], [0xa7, 0x80, 0, 0], [0xa9, 0x80, 0, 0]]
+    for rules in ('ber', 'cer', 'der'):
+        for T in GUIDES + [P.sc('int', [P.op('E', 2, 0)]),
+                           {'k': 'choice', 'tags': [P.op('E', 2, 0)], 'alts': [{'name': 'x', 't': P.sc('int')}, {'name': 'y', 't': P.sc('null')}]}]:
+            for streaming in (False, True):
+                bid += 1
+                jobs.append((bid, rules, T, streaming, crafted))
+                labels[bid] = ('grammar-based contents', rules, P.shape_key(T) if T else 'schemaless', streaming, None)
     # (b) mutations of valid encodings from the universe, decoded under their own type and schemaless
     with tlc.Scratch('c08') as sc:
         gen = dict(kinds=['int', 'octs', 'bits', 'bool', 'utf8', 'real', 'oid', 'null'], tagnums=[0, 31], classes=[2],
